@@ -6,16 +6,16 @@
    tree-sitter, the recursive walkers or the OS raise or hang on a given byte string - is validated at run time
    by the mutation stream of harness/props/c11.py. *)
 From TL Require Import Lib.Base Lib.GenTypes Model.ContainTypes Gen.ContainGen Model.Contain
-     Proofs.ContainMain Proofs.ContainDetect Proofs.ContainStaged.
+     Proofs.ContainMain Proofs.ContainDetect Proofs.ContainStaged Gen.CensusGen Proofs.ContainCensus Model.ContainWalk Proofs.ContainWalk.
 
 (* ---- 1. sibling isolation ------------------------------------------------------------------------------------ *)
 (* For every rule set (rules = arbitrary partial functions), every file list and EVERY set `bad` of files - in
-   particular the files on which some rules fail - with all failures contained: the run completes, its cells are
+   particular the files on which some rules fail - and NO hypothesis on the rules (check() and finalize() may fail in any
+   way): the run completes, its cells are
    the specified ones, the cells of the other files are exactly the cells of the run without the bad files, and
    the cross-file findings agree provided the bad files left no evidence in the stores. *)
 Theorem C11_sibling_isolation : forall q rules files (bad : string -> bool),
-  q_value_error_escapes q = false ->
-  final_safe rules files -> final_safe rules (filter (fun p => negb (bad p)) files) ->
+  q_value_error_escapes q = false -> q_finalize_unguarded q = false ->
   exists cells fins cells' fins',
     fst (run q rules files) = Completed cells fins /\
     fst (run q rules (filter (fun p => negb (bad p)) files)) = Completed cells' fins' /\
@@ -47,12 +47,13 @@ Print Assumptions C11_cross_file_condition.
 
 (* ---- 2. exactness, and what the re-raised ValueError clause costs -------------------------------------------- *)
 Theorem C11_run_exact : forall q rules files,
-  q_value_error_escapes q = false -> final_safe rules files ->
-  run q rules files = (spec_run rules files, spec_log rules files).
+  q_value_error_escapes q = false -> q_finalize_unguarded q = false ->
+  fst (run q rules files) = spec_run rules files.
 Proof. exact run_ideal_exact. Qed.
 Print Assumptions C11_run_exact.
 
-(* partial: the faithful model is exact on every input on which no rule fails with a ValueError-family exception *)
+(* partial: the faithful model is exact on every input on which no rule fails with a ValueError-family exception and no
+   finalize() fails *)
 Theorem C11_faithful_exact_outside_value_family_partial : forall q rules files,
   (forall r p e, In r rules -> In p files -> r_res r p = Fail e -> value_family e = false) ->
   final_safe rules files ->
@@ -82,13 +83,28 @@ Theorem C11_crash_has_cause : forall q rules files e,
 Proof. exact crash_has_cause. Qed.
 Print Assumptions C11_crash_has_cause.
 
-(* finalize() is not guarded in the source: the theorems above assume it does not raise, and if it does ... *)
+(* finalize() is not guarded in the source (flag q_finalize_unguarded): a failing finalize() aborts the faithful run ... *)
 Theorem C11_finalize_failure_crashes : forall q rules files,
+  q_finalize_unguarded q = true ->
   all_contained q rules files ->
   (exists r, In r rules /\ is_okb (r_final r (store_of r files)) = false) ->
   exists e', fst (run q rules files) = Crashed e'.
 Proof. exact finalize_failure_crashes. Qed.
 Print Assumptions C11_finalize_failure_crashes.
+
+(* ... whereas the demanded behaviour costs exactly that rule's cross-file findings *)
+Theorem C11_guarded_finalize_failure_is_local : forall q rules files,
+  q_value_error_escapes q = false -> q_finalize_unguarded q = false ->
+  exists cells, fst (run q rules files) = Completed cells (map (fun r => (r_id r, ok_or_nil (r_final r (store_of r files)))) rules).
+Proof. exact guarded_finalize_failure_is_local. Qed.
+Print Assumptions C11_guarded_finalize_failure_is_local.
+
+(* every quirk vector: exact whenever nothing escapes the except table and (the finalize loop is guarded or no finalize() fails) *)
+Theorem C11_run_exact_general : forall q rules files,
+  all_contained q rules files -> fin_guard q "lint_files" = true \/ final_safe rules files ->
+  fst (run q rules files) = spec_run rules files.
+Proof. exact run_exact_fst. Qed.
+Print Assumptions C11_run_exact_general.
 
 Theorem C11_failing_pair_costs_its_own_cell : forall q rules files r p,
   all_contained q rules files -> final_safe rules files -> In r rules -> In p files ->
@@ -111,7 +127,7 @@ Print Assumptions C11_empty_log_means_no_failure.
 
 (* ---- 4. exit status ------------------------------------------------------------------------------------------ *)
 Theorem C11_exit_0_or_1 : forall q rules files,
-  q_value_error_escapes q = false -> final_safe rules files -> exit_code (fst (run q rules files)) <= 1.
+  q_value_error_escapes q = false -> q_finalize_unguarded q = false -> exit_code (fst (run q rules files)) <= 1.
 Proof. exact ideal_exit_0_or_1. Qed.
 Print Assumptions C11_exit_0_or_1.
 
@@ -123,7 +139,7 @@ Print Assumptions C11_crash_exit_is_2.
 (* worker and future reader re-raise the ValueError family and swallow everything else; the parent re-runs the
    cross-file rules before finalizing (Gen: par_parent_collects) *)
 Theorem C11_par_run_exact : forall q rules files,
-  all_contained q rules files -> final_safe rules files -> (forall r, In r rules -> wf_rule r) ->
+  all_contained q rules files -> fin_guard q "_finalize_rules" = true \/ final_safe rules files -> (forall r, In r rules -> wf_rule r) ->
   fst (run_par q rules files) = spec_run rules files.
 Proof. exact run_par_exact. Qed.
 Print Assumptions C11_par_run_exact.
@@ -234,6 +250,44 @@ Theorem C11_detect_unknown : forall name present decodes content,
   detect name present decodes content = unknown_language.
 Proof. exact detect_unknown. Qed.
 Print Assumptions C11_detect_unknown.
+
+(* ---- 9. census of the raising expressions in the analyzers (regenerated from the source on every run) ----------- *)
+(* every int()/float()/.index()/.decode()/next() call in src/linters, src/analyzers, src/linter_config, core/linter_utils,
+   orchestrator/core, orchestrator/language_detector is inside a try that catches what it raises, or is an audited site *)
+Theorem C11_conversion_census : forall s, In s conversion_sites -> snd s = true \/ In (fst (fst s)) audited_conversions.
+Proof. exact conversion_census. Qed.
+Print Assumptions C11_conversion_census.
+
+(* every tuple-unpacking assignment is guarded, unpacks a call all of whose returns are tuple displays of that length, or is audited *)
+Theorem C11_unpack_census : forall s, In s unpack_sites -> snd s = true \/ In (fst s) audited_unpacks.
+Proof. exact unpack_census. Qed.
+Print Assumptions C11_unpack_census.
+
+(* the number of unguarded subscript loads per function is the recorded one (304 in all) *)
+Theorem C11_subscript_census : subscript_counts = recorded_subscript_counts.
+Proof. exact subscript_census. Qed.
+Print Assumptions C11_subscript_census.
+
+Theorem C11_audited_sites_exist :
+  forallb (fun a => existsb (fun s : string * string * bool => String.eqb a (fst (fst s)) && negb (snd s)) conversion_sites) audited_conversions = true
+  /\ forallb (fun a => existsb (fun s : string * bool => String.eqb a (fst s) && negb (snd s)) unpack_sites) audited_unpacks = true.
+Proof. exact audited_sites_exist. Qed.
+Print Assumptions C11_audited_sites_exist.
+
+(* ---- 10. the recursive tree walkers (the modelled root cause of the RecursionError findings for TS/JS/Rust) ------- *)
+(* with `fuel` interpreter frames left, walk_tree raises RecursionError exactly on the trees deeper than fuel ... *)
+Theorem C11_walk_fails_iff : forall t fuel ty, walk fuel ty t = None <-> fuel < depth t.
+Proof. exact walk_fails_iff. Qed.
+Print Assumptions C11_walk_fails_iff.
+
+(* ... otherwise it finds every node of the type; partial: the faithful walker is exact on every tree that fits *)
+Theorem C11_walker_faithful_partial : forall q fuel ty t, depth t <= fuel -> walker q fuel ty t = Some (count ty t).
+Proof. exact walker_faithful_partial. Qed.
+Print Assumptions C11_walker_faithful_partial.
+
+Theorem C11_walker_total : forall q fuel ty t, q_walk_recursive q = false -> walker q fuel ty t = Some (count ty t).
+Proof. exact walker_ideal_total. Qed.
+Print Assumptions C11_walker_total.
 
 (* non-vacuity: a run with two rules and three files, one rule failing (RecursionError) on the middle file:
    all hypotheses hold, the failing pair costs its own cell only, H1 shows it *)
